@@ -364,6 +364,16 @@ Proof.
   rewrite (qsum_perm _ _ (Permutation_map _ Hp)). reflexivity.
 Qed.
 
+(* the i-th call of a session is the function of (bus, i-th default) alone: earlier calls and
+   their defaults do not matter *)
+Lemma load_call_independent_lemma : forall b defs i d,
+  nth_error defs i = Some d -> nth_error (session b defs) i = Some (calculate_bus_load b d).
+Proof. intros b defs i d H. unfold session. apply map_nth_error. exact H. Qed.
+
+Lemma session_prefix_free_lemma : forall b pre pre' d,
+  last (session b (pre ++ [d])) (BLErr ErrIsZero) = last (session b (pre' ++ [d])) (BLErr ErrIsZero).
+Proof. intros. unfold session. rewrite !map_app. cbn [map]. rewrite !last_last. reflexivity. Qed.
+
 (* ---------- hypotheses are satisfiable / the numbers of the test-suite's fixture ---------- *)
 Definition ex_bus : bus := mkBus 0 250000 [[mkMsg 0 8 100; mkMsg 1 8 10]; []; [mkMsg 2 0 0]].
 
